@@ -134,7 +134,9 @@ class World:
         rnd.shuffle(ts)
         warm = (T(cfg["warmup"], tick) - BASE) if cfg["warmup"] >= 0 else None
         fend = T(cfg["fend"], tick) if cfg["fend"] < 2000000000 else T(2000000000)
-        tr = Transmitter(ts, folds={"f": [T(cfg["fstart"], tick), fend]}, markov_reset=bool(cfg["markov"]),
+        extend = cfg.get("reuse_transmitter") == "extend" and len(self.grid) >= 3
+        first_ts = [t for t in ts if t <= T(self.grid[len(self.grid) // 2 - 1], tick)] if extend else ts
+        tr = Transmitter(first_ts, folds={"f": [T(cfg["fstart"], tick), fend]}, markov_reset=bool(cfg["markov"]),
                          warmup=warm)
         self.events = []
         for e in cfg["events"]:
@@ -147,7 +149,23 @@ class World:
             self.sink.ids[id(ev)] = e["id"]
             self.sinkx.ids[id(ev)] = e["id"]
             self.events.append(ev)
-        tr.add_events(list(self.events))
+        if extend:
+            # the Transmitter first serves another environment with only the first half of the data (and is reset once),
+            # then it is extended with the remaining timesteps and events and handed to the environment under test
+            cutoff = T(self.grid[len(self.grid) // 2 - 1], tick)
+            early = [ev for ev in self.events if ev.time <= cutoff]
+            if early:
+                tr.add_events(list(early))
+                pre = TradingEnv(action_space=BoxPortfolio([self.A, self.B], low=0.0, high=1.0), transmitter=tr,
+                                 latency=float(cfg["lat"] * tick))
+                impl.classify(lambda: pre.reset(fold="f"))
+                tr.add_timesteps([t for t in ts if t > cutoff])
+                tr.add_events([ev for ev in self.events if ev.time > cutoff])
+            else:
+                tr.add_timesteps([t for t in ts if t > cutoff])
+                tr.add_events(list(self.events))
+        else:
+            tr.add_events(list(self.events))
         if cfg["space"] == "discrete":
             space = DiscretePortfolio([self.A, self.B], [[k / 16.0, 0.0] for k in range(N_ALLOC)])
         elif cfg["space"] == "boxcash":
@@ -156,7 +174,7 @@ class World:
             space = BoxPortfolio([self.A, self.B], low=0.0, high=float(N_ALLOC), as_weights=False)
         else:
             space = BoxPortfolio([self.A, self.B], low=0.0, high=1.0)
-        if cfg.get("reuse_transmitter"):
+        if cfg.get("reuse_transmitter") is True:
             # the same Transmitter served another environment first, configured with a different latency
             other = 0.0 if cfg["lat"] else float(min(b - a for a, b in zip(self.grid, self.grid[1:])) * tick) / 2.0
             TradingEnv(action_space=BoxPortfolio([self.A, self.B], low=0.0, high=1.0), transmitter=tr, latency=other)
